@@ -34,7 +34,7 @@ _IPV4_DEC = ["Ipv4Slice::from_slice", "Ipv4HeaderSlice::*"]
 
 ID = "C10"
 PROP = {
-    "max_jobs": 4,  # parallel CBMC jobs (memory profile of these harnesses)
+    "max_jobs": 3,  # parallel CBMC jobs (each builder run needs 5-14 GB)
     "claim":
         "Per builder path (link x vlan x net x transport CONCRETE per harness, every value symbolic, payload 0..=6 "
         "symbolic bytes of every length): a write succeeds, emits exactly size(payload_len) bytes, and an independent "
@@ -91,7 +91,7 @@ PROP = {
         # ---- quick
         _fam("ipv4_udp", "io", "quick", 6, "ipv4 > udp", _IPV4_DEC + ["UdpSlice::from_slice"]),
         _fam("ipv4_udp", "slice", "quick", 6, "ipv4 > udp", _IPV4_DEC + ["UdpSlice::from_slice"]),
-        _fam("ipv4_udp", "vec", "quick", 6, "ipv4 > udp", _IPV4_DEC + ["UdpSlice::from_slice"]),
+        _fam("ipv4_udp", "vec", "quick", 6, "ipv4 > udp", _IPV4_DEC + ["UdpSlice::from_slice"], timeout=1800),
         _fam("vlan_ipv4_tcp", "io", "quick", 42,
              "ethernet2 > single_vlan > ipv4 > tcp > ns syn psh ack urg ece > options_raw(6 bytes)",
              ["Ethernet2Slice::from_slice_without_fcs", "SingleVlanSlice::from_slice", "TcpSlice::from_slice"] + _IPV4_DEC),
